@@ -13,8 +13,8 @@ Check (C07_counter_value : forall i pre,
 Print Assumptions C07_counter_value.
 Check (C07_gauge_value : forall i pre v post, forallb (gauge_quiet i) post = true ->
   spec_gauge i (pre ++ GSet i v :: post) = v
-  /\ spec_gauge i (pre ++ GInc i v :: post) = (spec_gauge i pre + v)%Z
-  /\ spec_gauge i (pre ++ GDec i v :: post) = (spec_gauge i pre - v)%Z
+  /\ spec_gauge i (pre ++ GInc i v :: post) = xadd (spec_gauge i pre) v
+  /\ spec_gauge i (pre ++ GDec i v :: post) = xadd (spec_gauge i pre) (xneg v)
   /\ spec_gauge i (pre ++ post) = spec_gauge i pre).
 Print Assumptions C07_gauge_value.
 Check (C07_every_sample_once : forall c, wf_names c = true ->
@@ -22,18 +22,24 @@ Check (C07_every_sample_once : forall c, wf_names c = true ->
   (let s := fst (run c init h) in
    let e := aget parts_eqb (parts c k) (dists s) in
    N.of_nat (List.length (records i h)) = dist_count e + N.of_nat (List.length (dflt (aget N.eqb i (pend s)) []))
-   /\ zsum (records i h) = (dist_sum e + zsum (dflt (aget N.eqb i (pend s)) []))%Z)
+   /\ xsum (records i h) = xadd (dist_sum e) (xsum (dflt (aget N.eqb i (pend s)) [])))
   /\ (forall o, o = Render \/ o = Upkeep -> registered i k h = true ->
       let s := fst (run c init (h ++ [o])) in
       let e := aget parts_eqb (parts c k) (dists s) in
       aget N.eqb i (pend s) = Some [] /\
-      dist_count e = N.of_nat (List.length (records i h)) /\ dist_sum e = zsum (records i h))).
+      dist_count e = N.of_nat (List.length (records i h)) /\ dist_sum e = xsum (records i h))).
 Print Assumptions C07_every_sample_once.
 Check (C07_sum_once : forall (F : Type) (fadd : F -> F -> F) (fzero : F),
   (forall a b c, fadd a (fadd b c) = fadd (fadd a b) c) -> (forall a b, fadd a b = fadd b a) -> (forall a, fadd fzero a = a) ->
   forall ops, let st := fold_left (astep F fadd fzero) ops ([], fzero) in
   fadd (snd st) (fsum F fadd fzero (fst st)) = fsum F fadd fzero (arecorded F ops)).
 Print Assumptions C07_sum_once.
+Check (C07_sum_once_with_special_values : (forall a b c, xadd a (xadd b c) = xadd (xadd a b) c) /\ (forall a b, xadd a b = xadd b a) /\ (forall a, xadd xzero a = a)
+  /\ (forall a b, cls (xadd a b) = cadd (cls a) (cls b))
+  /\ (forall a, cls (xneg a) = match cls a with CNaN => CNaN | CPInf => CNInf | CNInf => CPInf | CFin z => CFin (- z) end)
+  /\ (forall ops, let st := fold_left (astep xnum xadd xzero) ops ([], xzero) in
+      xadd (snd st) (fsum xnum xadd xzero (fst st)) = fsum xnum xadd xzero (arecorded xnum ops))).
+Print Assumptions C07_sum_once_with_special_values.
 Check (C07_labels_global_overridden_by_key : forall g kl,
   imap_of (g ++ kl) = spec_labels g kl /\ key_labels g kl = map label_string (spec_labels g kl)).
 Print Assumptions C07_labels_global_overridden_by_key.
@@ -64,6 +70,11 @@ Check (C07_example_nontrivial : wf_names (fst ex_case) = true
   /\ In {| a_fam := [99]; a_type := 0; a_help := None; a_name := [99]; a_labels := [[103; 61; 34; 49; 34]];
            a_extra := XNone; a_val := VInt 1 |} (last (run_case ex_case) [])).
 Print Assumptions C07_example_nontrivial.
+Check (C07_example_special_values : wf_names (fst ex_special) = true
+  /\ map (map (fun a => (a_extra a, a_val a))) (run_case ex_special)
+     = [ [(XLe 4, VInt 1); (XLe 8, VInt 2); (XInf, VInt 3); (XNone, VPInf); (XNone, VInt 3); (XNone, VPInf)];
+         [(XLe 4, VInt 2); (XLe 8, VInt 3); (XInf, VInt 5); (XNone, VNaN); (XNone, VInt 5); (XNone, VNaN)] ]).
+Print Assumptions C07_example_special_values.
 Check (C07_conc_every_sample_once : forall ps sched k,
   let s := fst (final ps sched) in
   drained k (c_log s) ++ c_bkt s k = recorded k (c_log s)
